@@ -2,6 +2,7 @@
 package main
 
 import (
+	"hash/fnv"
 	"bytes"
 	"context"
 	"fmt"
@@ -42,7 +43,7 @@ func prelude(body string) string {
 	b.WriteString("(declare-fun mkiface (Int Int) Int)\n(declare-fun dyntag (Int) Int)\n(declare-fun payload (Int) Int)\n")
 	b.WriteString("(declare-fun sub (Int Int) Int)\n(declare-fun subp (Int) Int)\n(declare-fun subi (Int) Int)\n")
 	b.WriteString("(declare-fun stridx (Str Str) Int)\n(declare-fun crcrange (Int Int Int) Int)\n(declare-fun strle (Str Str) Bool)\n")
-	b.WriteString("(declare-fun byteof (Int Int) Int)\n(declare-fun slid (Int Int Int) Int)\n(declare-fun crcsum (Int Int) Int)\n(declare-fun rdbyte (Int Int Int) Int)\n(declare-fun crcarr ((Array Int Int) Int Int) Int)\n")
+	b.WriteString("(declare-fun byteof (Int Int) Int)\n(declare-const specerr! Int)\n(declare-fun slid (Int Int Int) Int)\n(declare-fun crcsum (Int Int) Int)\n(declare-fun rdbyte (Int Int Int) Int)\n(declare-fun crcarr ((Array Int Int) Int Int) Int)\n")
 	if strings.Contains(body, "(rdbyte ") {
 		b.WriteString("(assert (forall ((r Int) (g Int) (i Int)) (! (and (<= 0 (rdbyte r g i)) (<= (rdbyte r g i) 255)) :pattern ((rdbyte r g i)))))\n")
 	}
@@ -333,7 +334,10 @@ var fileSan = regexp.MustCompile(`[^A-Za-z0-9_.\-]+`)
 func sanitizeFile(s string) string {
 	s = fileSan.ReplaceAllString(s, "_")
 	if len(s) > 150 {
-		s = s[:150]
+		// keep names unique after truncation (two obligations of one clause differ only at the end)
+		h := fnv.New32a()
+		h.Write([]byte(s))
+		s = fmt.Sprintf("%s_%08x", s[:150], h.Sum32())
 	}
 	return s
 }
